@@ -24,6 +24,9 @@ func main() {
 	if v := os.Getenv("VERIF_ROOT"); v != "" {
 		driver.VerifRoot = v
 	}
+	if v := os.Getenv("VERIF_REPO"); v != "" {
+		driver.RepoRoot = v
+	}
 	switch os.Args[1] {
 	case "worker":
 		fs := flag.NewFlagSet("worker", flag.ExitOnError)
